@@ -99,7 +99,7 @@ STATUS_FORMS = [0, 3, 4, 1]
 CUT_SPAN = {"quick": 170, "thorough": 400}
 
 
-def run_case(state, body_i, faults, ns_i=0, form=0, cut=None, lit=0, wfault=None, probe=False):
+def run_case(state, body_i, faults, ns_i=0, form=0, cut=None, lit=0, wfault=None, probe=False, prelude=False):
     names = NAMESETS[ns_i]
     store, active = build(state, BODIES[body_i], names)
     ch = refms.FixedChoices({"list-name-literal": lit, "getscript-quoted": 0}) if lit else None
@@ -107,6 +107,13 @@ def run_case(state, body_i, faults, ns_i=0, form=0, cut=None, lit=0, wfault=None
     srv.status_form = form
     before = dict(srv.store)
     s = wire.open_session(srv)
+    if prelude:
+        # earlier in the session the client listed the scripts (one of them active), then the user switched filtering off: what the
+        # client remembers from that listing must not decide which script the rename activates
+        s.call("listscripts")
+        s.call("setactive", "")
+        active = None
+        before = dict(srv.store)
     if probe:
         # the caller first asks whether the names exist (refused with NONEXISTENT for absent ones): what an earlier reply left in the
         # client must not colour the rename
@@ -155,6 +162,18 @@ def task(t):
                                   "witness": "state old=%s new=%s other=%s faults=%r body=%r" % (state + (faults, BODIES[bi])), "observed": o.brief()})
                 elif sample is None and faults and o.kind == "ret":
                     sample = {"state": "old=%s new=%s other=%s" % state, "faults": repr(faults), "outcome": o.brief(), "store_after": sorted(srv.store)}
+        # after an earlier listing and a deactivation on the same client (only states that had an active script differ from the plain run)
+        if "active" in state:
+            # (faults only on verbs the prelude itself does not send: fault placement counts occurrences per verb)
+            for faults in [()] + [((v, a),) for v in ("GETSCRIPT", "PUTSCRIPT", "DELETESCRIPT") for a in ("NO", "EOF")]:
+                bad, o, srv = run_case(state, 0, faults, 0, 0, None, 0, None, False, True)
+                n += 1
+                if bad:
+                    viols.append({"property": "C14", "engine": "wire",
+                                  "signature": ["C14", "old=%s new=%s other=%s" % state + "/after-listing+deactivation", "+".join("%s@%s" % (a, v) for v, a in faults) or "no-fault", bad[0]],
+                                  "what": "listscripts, setactive(''), then emulated rename old->new from state old=%s new=%s other=%s, faults %r: %s (outcome %s)" % (state + (faults, bad[1], o.brief())),
+                                  "case": {"state": list(state), "body_i": 0, "faults": [list(f) for f in faults], "ns_i": 0, "prelude": True},
+                                  "witness": "listing, deactivation, then state old=%s new=%s other=%s faults=%r" % (state + (faults,)), "observed": o.brief()})
         # the same single faults after refused probes on the same client
         for faults in [()] + [((v, a),) for v in VERBS for a in ("NO", "NO-BARE", "DROP-REPLY")]:
             bad, o, srv = run_case(state, 0, faults, 0, 0, None, 0, None, True)
@@ -256,7 +275,7 @@ def replay(payload):
         return []
     if c.get("same_name"):
         return [v for v in same_name_cases()[1] if v["signature"] == payload["signature"]]
-    bad, o, srv = run_case(tuple(c["state"]), c["body_i"], tuple(tuple(f) for f in c["faults"]), c.get("ns_i", 0), c.get("form", 0), c.get("cut"), c.get("lit", 0), tuple(c["wfault"]) if c.get("wfault") else None, bool(c.get("probe")))
+    bad, o, srv = run_case(tuple(c["state"]), c["body_i"], tuple(tuple(f) for f in c["faults"]), c.get("ns_i", 0), c.get("form", 0), c.get("cut"), c.get("lit", 0), tuple(c["wfault"]) if c.get("wfault") else None, bool(c.get("probe")), bool(c.get("prelude")))
     if bad:
         sig = list(payload["signature"])
         sig[3] = bad[0]
